@@ -390,5 +390,53 @@ theorem location_shape (d : Dict) (k : Nat) (idx : Int) (hk : k ∈ keys d) (hnd
   · rw [hl, he, h1, List.drop_append_of_le_length hf]
     simp
 
+/-! ### the part-by-part variant (`fixes/C19_6.diff`) agrees when no value contains a newline -/
+
+theorem splitLines_no_nl : ∀ v : List Char, '\n' ∉ v → splitLines v = [v] := by
+  intro v
+  induction v with
+  | nil => intro _; rfl
+  | cons c r ih =>
+    intro h
+    have hc : c ≠ '\n' := fun e => h (by simp [e])
+    have hr : '\n' ∉ r := fun e => h (List.mem_cons_of_mem _ e)
+    simp [splitLines, ih hr, hc]
+
+theorem addTokV_eq (split : Bool) (d : Dict) (t : Tok) (h : '\n' ∉ t.value) :
+    addTokV split d t = addTok d t := by
+  unfold addTokV
+  cases split with
+  | false => rfl
+  | true =>
+    simp only [if_true, splitLines_no_nl _ h, addParts]
+    rfl
+
+theorem foldl_addTokV_eq (split : Bool) : ∀ (toks : List Tok) (d : Dict),
+    (∀ t ∈ toks, '\n' ∉ t.value) → toks.foldl (addTokV split) d = toks.foldl addTok d := by
+  intro toks
+  induction toks with
+  | nil => intro d _; rfl
+  | cons t ts ih =>
+    intro d h
+    simp only [List.foldl_cons]
+    rw [addTokV_eq split d t (h t (by simp))]
+    exact ih _ (fun u hu => h u (List.mem_cons_of_mem _ hu))
+
+theorem errLenV_eq (split : Bool) (b : Tok) (h : '\n' ∉ b.value) : errLenV split b = b.value.length := by
+  unfold errLenV
+  cases split with
+  | false => rfl
+  | true => simp [splitLines_no_nl _ h]
+
+/-- with no newline inside any value, both variants of `error_location` print the same message -/
+theorem errorLocationV_eq (split : Bool) (toks : List Tok) (bad : Option Tok)
+    (h : ∀ t ∈ toks, '\n' ∉ t.value) (hb : ∀ b, bad = some b → '\n' ∉ b.value) :
+    errorLocationV split toks bad = errorLocation toks bad := by
+  unfold errorLocationV errorLocation
+  have hd : buildV split toks = build toks := foldl_addTokV_eq split toks [] h
+  rw [hd]
+  cases bad with
+  | none => rfl
+  | some b => simp only [errLenV_eq split b (hb b rfl)]
+
 end MindsVerif.Err
--- touch
